@@ -169,7 +169,7 @@ theorem C09_int_binary (o : Nat) (i : Int) (lo hi : Int) (hr : intRange o = some
     obtain ⟨rfl, rfl⟩ := hr
     have := rd16_be16 (toU16 i) (toU16_lt i) []
     simp only [List.append_nil] at this
-    simp [decodeVal, supportedOid, Oid.int2, Oid.text, Oid.varchar, Oid.int4, Oid.int8, intWidth, beInt, this,
+    simp [decodeVal, supportedOid, Oid.int2, Oid.text, Oid.varchar, Oid.ztext, Oid.int4, Oid.int8, intWidth, beInt, this,
       toU16_ofU16 i h1 h2]
   · by_cases h4 : o = Oid.int4
     · subst h4
@@ -177,7 +177,7 @@ theorem C09_int_binary (o : Nat) (i : Int) (lo hi : Int) (hr : intRange o = some
       obtain ⟨rfl, rfl⟩ := hr
       have := rd32_be32 (toU32 i) (toU32_lt i) []
       simp only [List.append_nil] at this
-      simp [decodeVal, supportedOid, Oid.int2, Oid.text, Oid.varchar, Oid.int4, Oid.int8, intWidth, beInt, this,
+      simp [decodeVal, supportedOid, Oid.int2, Oid.text, Oid.varchar, Oid.ztext, Oid.int4, Oid.int8, intWidth, beInt, this,
         ofU32_toU32 i h1 (by omega)]
     · by_cases h8 : o = Oid.int8
       · subst h8
@@ -186,7 +186,7 @@ theorem C09_int_binary (o : Nat) (i : Int) (lo hi : Int) (hr : intRange o = some
         have hlt : toU64 i < 18446744073709551616 := by unfold toU64; omega
         have := rd64_be64 (toU64 i) hlt
         have hl : (be64 (toU64 i)).length = 8 := rfl
-        simp [decodeVal, supportedOid, Oid.int2, Oid.text, Oid.varchar, Oid.int4, Oid.int8, intWidth, beInt, this,
+        simp [decodeVal, supportedOid, Oid.int2, Oid.text, Oid.varchar, Oid.ztext, Oid.int4, Oid.int8, intWidth, beInt, this,
           toU64_ofU64 i h1 h2, hl]
       · simp [h2', h4, h8] at hr
 
@@ -205,7 +205,7 @@ theorem C09_int_text (o : Nat) (i : Int) (lo hi : Int) (hr : intRange o = some (
         · simp [a, b, c] at hr
   have hsup : supportedOid o = true := by
     rcases ho with rfl | rfl | rfl <;> decide
-  have hnt : ¬ (o = Oid.text ∨ o = Oid.varchar) := by
+  have hnt : ¬ (o = Oid.text ∨ o = Oid.varchar ∨ o = Oid.ztext) := by
     rcases ho with rfl | rfl | rfl <;> decide
   have hrange : ¬ (i < lo ∨ i > hi) := by omega
   constructor
@@ -213,23 +213,23 @@ theorem C09_int_text (o : Nat) (i : Int) (lo hi : Int) (hr : intRange o = some (
   · simp [decodeVal, hsup, hnt, ho, hr, parseIntText_decInt i lo hi h1 h2]
 
 /-- text and varchar: every byte string round-trips in both formats (the empty one included) -/
-theorem C09_text (o fmt : Nat) (s : Bytes) (ho : o = Oid.text ∨ o = Oid.varchar) (hf : fmt = 0 ∨ fmt = 1) :
+theorem C09_text (o fmt : Nat) (s : Bytes) (ho : o = Oid.text ∨ o = Oid.varchar ∨ o = Oid.ztext) (hf : fmt = 0 ∨ fmt = 1) :
     encodeVal o fmt (.text s) = .ok (some s) ∧ decodeVal o fmt (some s) = .ok (.text s) := by
   have hf' : ¬ (fmt ≠ 0 ∧ fmt ≠ 1) := by omega
-  rcases ho with rfl | rfl <;> simp [encodeVal, encodeTyped, decodeVal, supportedOid, Oid.text, Oid.varchar, hf']
+  rcases ho with rfl | rfl | rfl <;> simp [encodeVal, encodeTyped, decodeVal, supportedOid, Oid.text, Oid.varchar, Oid.ztext, hf']
 
 /-- bytea, bool, uuid in binary format -/
 theorem C09_bytea_binary (s : Bytes) :
     encodeVal Oid.bytea 1 (.bytea s) = .ok (some s) ∧ decodeVal Oid.bytea 1 (some s) = .ok (.bytea s) := by
-  simp [encodeVal, encodeTyped, decodeVal, supportedOid, Oid.bytea, Oid.text, Oid.varchar, Oid.int2, Oid.int4, Oid.int8, Oid.bool]
+  simp [encodeVal, encodeTyped, decodeVal, supportedOid, Oid.bytea, Oid.text, Oid.varchar, Oid.ztext, Oid.int2, Oid.int4, Oid.int8, Oid.bool]
 
 theorem C09_bool_binary (b : Bool) :
     ∃ e, encodeVal Oid.bool 1 (.bool b) = .ok (some e) ∧ decodeVal Oid.bool 1 (some e) = .ok (.bool b) := by
-  cases b <;> simp [encodeVal, encodeTyped, decodeVal, supportedOid, Oid.bool, Oid.text, Oid.varchar, Oid.int2, Oid.int4, Oid.int8]
+  cases b <;> simp [encodeVal, encodeTyped, decodeVal, supportedOid, Oid.bool, Oid.text, Oid.varchar, Oid.ztext, Oid.int2, Oid.int4, Oid.int8]
 
 theorem C09_uuid_binary (s : Bytes) (h : s.length = 16) :
     encodeVal Oid.uuid 1 (.uuid s) = .ok (some s) ∧ decodeVal Oid.uuid 1 (some s) = .ok (.uuid s) := by
-  simp [encodeVal, encodeTyped, decodeVal, supportedOid, Oid.uuid, Oid.bytea, Oid.bool, Oid.text, Oid.varchar, Oid.int2, Oid.int4,
+  simp [encodeVal, encodeTyped, decodeVal, supportedOid, Oid.uuid, Oid.bytea, Oid.bool, Oid.text, Oid.varchar, Oid.ztext, Oid.int2, Oid.int4,
     Oid.int8, h]
 
 end Pw.Props.C09
